@@ -1,5 +1,6 @@
 // govc:pkg aggregator
 // govc:bound grouping tuples of arity 1..3 over one scalar type per column: strings from a pool with separator-like characters ('|', ',', unit separator, backslash, NUL, the NULL markers), NULL and missing (19^2 / 10^3 tuples), and small integers; all pairs of tuples compared
+// govc:also C01 C03 C07 C09
 // Bounded stand-in (NOT a proof): the group key built by GroupAggregator.Add: two rows get the same key iff their grouping tuples are equal.
 package aggregator
 
